@@ -158,6 +158,8 @@ def run(ctx):
             import traceback as _tb
             viol.append({"kind": "network integrate raised", "edge_types": [t.__name__ for t in tys], "error": repr(ex)[:300], "trace": _tb.format_exc()[-600:]})
     evals += evc[0]
+    import regress
+    evals += regress.run("C06", viol)
     for v in viol:
         v.setdefault("finding_class", None)
     return {"evaluations": evals, "distinct_nontrivial": len(distinct),
